@@ -14,11 +14,14 @@ package main
 import (
 	"fmt"
 	"os"
+	"regexp"
 	"path/filepath"
 	"sort"
 	"strings"
 	"time"
 )
+
+var reHexRun = regexp.MustCompile(`[0-9a-f]{16,}|patch-[a-z]+`)
 
 type wrConfig struct {
 	Cwd  string   // relative to the root
@@ -415,7 +418,7 @@ func c03Whole(ctx *Ctx, res *Result, rng *Rng) {
 		ds := ParseDiags(f.Stdout)
 		for k, d := range ds {
 			if d.Level != "AUTOFIX" && k+1 < len(ds) && ds[k+1].Level == "AUTOFIX" {
-				j.fixK[d.Level+" "+MsgKind(d.Msg)]++
+				j.fixK[d.Level+" "+MsgKind(reHexRun.ReplaceAllString(d.Msg, "_"))]++
 			}
 		}
 		j.cfg = c03PickConfig(r, g, f.Stdout)
@@ -429,6 +432,7 @@ func c03Whole(ctx *Ctx, res *Result, rng *Rng) {
 	diagKinds := map[string]bool{}
 	actionKinds := map[string]bool{}
 	nontrivial := 0
+	var reloadExamples []any
 	for _, j := range jobs {
 		if j.err != nil {
 			res.Broken = "oracle: " + j.err.Error()
@@ -458,8 +462,11 @@ func c03Whole(ctx *Ctx, res *Result, rng *Rng) {
 		res.Count("W.files_judged", j.ev.FilesChecked)
 		res.Count("W.files_changed", len(j.ev.Changed))
 		res.Count("W.mode_only_changes", len(j.ev.ModeOnly))
-		for _, rl := range j.ev.Reloads {
+		for rel, rl := range j.ev.Reloads {
 			res.Count(fmt.Sprintf("W.files_needing_%d_reloads", rl), 1)
+			if len(reloadExamples) < 6 {
+				reloadExamples = append(reloadExamples, map[string]any{"run": j.cfg.String(), "file": rel, "log": j.ev.Logs[rel].Raw})
+			}
 		}
 		for _, a := range j.cfg.Args {
 			if strings.HasPrefix(a, "-") {
@@ -487,6 +494,9 @@ func c03Whole(ctx *Ctx, res *Result, rng *Rng) {
 	res.Count("W.distinct_diag_kinds_with_fix", len(diagKinds))
 	res.Count("W.distinct_action_kinds", len(actionKinds))
 	res.Distribution["W.diag_kinds_with_fix"] = sortedKeys(diagKinds)
+	if len(reloadExamples) > 0 {
+		res.Distribution["W.examples_saved_and_loaded_again"] = reloadExamples
+	}
 	if len(res.Violations) == 0 && (len(actionKinds) < 4 || len(diagKinds) < 15 || nontrivial < ntrees/3) {
 		res.Broken = fmt.Sprintf("whole-run generator lost its coverage: %d action kinds (need 4), %d diagnostic kinds with a fix (need 15), %d of %d runs with AUTOFIX lines", len(actionKinds), len(diagKinds), nontrivial, ntrees)
 	}
